@@ -27,8 +27,8 @@ package syncx
 //@   loop 1 iteration-ensures [waits-for-the-remaining-time] calls(WaitWithTimeout) == 1 && arg(WaitWithTimeout, 1) == at_head(timeout) && timeout == ret(WaitWithTimeout, 0)
 //@   loop 1 iteration-ensures [keeps-trying-while-time-remains] timeout > 0
 //@   ensures [immediate] ret(TryBorrow, 0, 1) ==> result == nil && calls(WaitWithTimeout) == 0
-//@   ensures [timeout-only-when-elapsed] result != nil ==> result == ErrTimeout && local(timeout) <= 0 && local(timeout) == ret(WaitWithTimeout, 0)
-//@   ensures [success-means-borrowed] result == nil && !ret(TryBorrow, 0, 1) ==> ret(WaitWithTimeout, 1) && calls(TryBorrow) >= 1
+//@   ensures [timeout-only-when-elapsed] result != nil ==> result == ErrTimeout && local(timeout) <= 0 && local(timeout) == ret(WaitWithTimeout, 0, last)
+//@   ensures [success-means-borrowed] result == nil && !ret(TryBorrow, 0, 1) ==> ret(WaitWithTimeout, 1, last) && ret(TryBorrow, 0, last) && tail(calls(TryBorrow)) == 1
 //@ func (TimeoutLimit).Return
 //@   prop C18
 //@   opaque Signal
@@ -126,7 +126,8 @@ package syncx
 //@   guards lg.mu: mapof(lg.m)
 //@   requires lg != nil && lg.m != nil
 //@   loop 1 iteration-ensures [busy-key-waited-for-outside-the-lock] calls(on("lock", lg.mu)) == 1 && at(on("lock", lg.mu), has(lg.m, key)) && calls(on("unlock", lg.mu)) == 1 && calls("wg.Wait") == 1 && before(on("unlock", lg.mu), "wg.Wait") && calls(makeCall) == 0
-//@   ensures [runs-only-when-key-free-under-lock] calls(lg.makeCall, key, fn) == 1 && calls(on("lock", lg.mu)) == 1 && !at(on("lock", lg.mu), has(lg.m, key)) && calls(on("unlock", lg.mu)) == 0 && before(on("lock", lg.mu), makeCall) && result0 == ret(makeCall, 0) && result1 == ret(makeCall, 1)
+//@   loop 1 invariant calls(makeCall) == 0
+//@   ensures [runs-only-when-key-free-under-lock] calls(lg.makeCall, key, fn) == 1 && calls(makeCall) == 1 && tail(calls(on("lock", lg.mu)) == 1 && !at(on("lock", lg.mu), has(lg.m, key)) && calls(on("unlock", lg.mu)) == 0 && before(on("lock", lg.mu), makeCall)) && result0 == ret(makeCall, 0) && result1 == ret(makeCall, 1)
 // DoEx: as Do, additionally telling whether this caller was the one that executed.
 //@ func (*flightGroup).DoEx
 //@   prop C18, C06, C17
